@@ -105,6 +105,7 @@ def expected_dropped(ll, names_alive_axes, src_pix, surv_axes, nd, tag, group_of
     for i in range(ll.world_n_dim):
         if not alive[key(i)]:
             out.append({"src": tag, "i": i, "ptype": ptypes[i], "value": vals[i], "key": key(i), "get": accessor(comps[i]),
+                        "unit": str(ll.world_axis_units[i]),
                         "name": names[i], "deg": str(ll.world_axis_units[i]) == "deg"})
     return out
 
@@ -221,7 +222,9 @@ def run(case):
                     if ptt != want_pt:
                         continue
                     try:
-                        vals = [float(np.asarray(getattr(e["get"](obj), "value", e["get"](obj)))) for e in grp]
+                        # a Quantity is compared as a physical value: in the unit the source WCS reports for the axis
+                        objs = [obj.to(e["unit"]) if isinstance(obj, u.Quantity) and e["unit"] else obj for e in grp]
+                        vals = [float(np.asarray(getattr(e["get"](o), "value", e["get"](o)))) for e, o in zip(grp, objs)]
                     except Exception as ex:
                         problems.append(f"{k}: accessor failed {type(ex).__name__}")
                         continue
